@@ -506,6 +506,9 @@ static void run_script(script_t *S)
     }
     for (int k = 0; k < S->ntiles; k++)
         if (k % g_world == g_rank) fprintf(g_log, "E %d %u\n", k, *tile_ptr(S->dc, k));
+    /* scripts of one batch are separated by a barrier on several ranks (DTD_DRIVER_NOBARRIER=1 removes it): taskpool
+     * termination is local, without it a fast rank tears its collection down while slower ranks still run the script */
+    if (g_world > 1 && NULL == getenv("DTD_DRIVER_NOBARRIER")) MPI_Barrier(MPI_COMM_WORLD);
     parsec_dtd_data_collection_fini(S->dc);
     free_dc(S->dc);
     fprintf(g_log, "Z %d\n", S->sid);
